@@ -4,6 +4,7 @@ From GV Require Import Base.Str Num.IntParse Num.DecParse Num.Nearest Num.Printf
 Extraction Blacklist String List Nat.
 Extraction "num.ml"
   g_is_space g_is_digit g_is_blank string_to_int simple_atoi no_sign_atoi strtol10
+  string_to_int_u simple_atoi_u no_sign_atoi_u
   is_cif_numb cif_value cif_number as_number_bits as_number_v0_bits nearest_full nearest_double
   fast_atof read_double ff_scan decode_bits print_fixed printed_ok
   Z.add Z.mul Z.pow Z.div Z.modulo Z.sub Z.opp Z.ltb Z.eqb.
